@@ -792,3 +792,8 @@ func (fi *FuncInfo) PathFileName(v ssa.Value) string {
 	}
 	return ""
 }
+
+// ConvTermKey returns the key of the conversion cv:typ(x).
+func ConvTermKey(typ string, x *Term) string {
+	return (&Term{K: KConv, S: typ, A: []*Term{x}}).Key()
+}
